@@ -208,6 +208,9 @@ class PreemptibleResource(Entity):
             self._try_preempt(amount, priority)
             if self._available >= amount:
                 self._grant_immediate(future, amount, priority, on_preempt)
+                # An evicted grant may be larger than this request: offer the
+                # remainder to queued waiters instead of leaving it idle.
+                self._wake_waiters()
                 return future
 
         # Must wait
@@ -221,6 +224,10 @@ class PreemptibleResource(Entity):
         )
         self._insert_counter += 1
         heapq.heappush(self._waiters, waiter)
+        if preempt and self._available > 0:
+            # Preemption freed capacity but not enough for this request:
+            # the head-of-line waiter may fit in what was freed.
+            self._wake_waiters()
 
         logger.debug(
             "[%s] Queued acquire(%d, priority=%.1f), waiters=%d",
